@@ -268,7 +268,19 @@ class Runner:
         raw = e2e.build_request(req["method"], req["target"], req["headers"], req.get("body"), req.get("chunked"),
                                 req.get("declare", True), req.get("trailers"))
         t0 = time.time()
-        if case.get("send_rate"):
+        if case.get("env_after_head"):
+            # the request's head and the first half of its body arrive, then the environment changes (a key latched / rotated / cleared,
+            # rules replaced), then the rest of the body: the request is handled under the environment in force when it is complete
+            i = raw.index(b"\r\n\r\n") + 4
+            half = i + max(1, (len(raw) - i) // 2)
+            ok_ = conn.send(raw[:half])
+            time.sleep(0.15)
+            self.set_env(case["env_after_head"])
+            case["env"] = case["env_after_head"]
+            time.sleep(0.05)
+            ok_ = ok_ and conn.send(raw[half:])
+            resp = conn.read_response(req["method"].encode(), case.get("timeout", 6.0)) if ok_ else None
+        elif case.get("send_rate"):
             # a slow client: the head at once, then the body at that many bytes per second
             i = raw.index(b"\r\n\r\n") + 4
             ok_ = conn.send(raw[:i])
@@ -520,9 +532,13 @@ def abort_storm(stack, callers, n=40, slow_us=4000, dest=None):
     while their actor messages are still queued. Returns the response of a request made afterwards on a new connection."""
     dest = dest or e2e.IMDS
     c = callers.caller(0, "curl", True)
-    stack.ctl("slowall %d" % slow_us)
+    # one actor at a time is the slow one, so that its replies come after the client has gone: the state actor of the key keeper (rules
+    # and key reads), the status actor (connection counts and summaries), the provision actor, then all of them
+    phases = ["slowactor key_keeper %d" % slow_us, "slowactor agent_status %d" % slow_us, "slowactor provision %d" % slow_us, "slowall %d" % slow_us]
     try:
         for i in range(n):
+            if i % max(1, n // len(phases)) == 0:
+                stack.ctl(phases[min(len(phases) - 1, i // max(1, n // len(phases)))])
             conn = stack.connect(audit=(0, c["pid"], 1, dest[0], dest[1]))
             try:
                 conn.send(e2e.build_request("GET", "/metadata/instance?abort=%d" % i, [(b"Host", b"h")]))
